@@ -94,6 +94,12 @@ def static_classes(prog):
         if isinstance(n, ast.Compare) and len(n.ops) >= 2:
             if any(isinstance(x, (ast.Call, ast.NamedExpr, ast.Await, ast.Yield)) for m in n.comparators[:-1] for x in ast.walk(m)):
                 cls['chained_comparison_effectful_middle_operand'] = True
+    # (7) `x op= <expr reading names>`: variables.visit_AugAssign does not visit the value, so reads in it are not
+    #     wrapped in ag__.ld and an Undefined placeholder flows on instead of raising
+    for n in ast.walk(fn):
+        if isinstance(n, ast.AugAssign) and isinstance(n.target, ast.Name):
+            if any(isinstance(x, ast.Name) and isinstance(x.ctx, ast.Load) for x in ast.walk(n.value)):
+                cls['augassign_value_reads_not_ld_wrapped'] = True
     return cls
 
 
@@ -138,7 +144,7 @@ def zero_trip_lines(prog, mod, args, dec):
     return zero
 
 
-def classify(prog, mod, args, dec, static):
+def classify(prog, mod, args, dec, static, orig_outcome=None):
     """Finding class of a failing case, or None (= new violation)."""
     if 'for_target_rebound_elsewhere_and_read_after_loop' in static:
         return 'for_target_rebound_elsewhere_and_read_after_loop'
@@ -146,6 +152,8 @@ def classify(prog, mod, args, dec, static):
         return 'nonlocal_write_in_reaching_closure'
     if 'nested_fn_param_leaks_into_enclosing_bound' in static:
         return 'nested_fn_param_leaks_into_enclosing_bound'
+    if 'augassign_value_reads_not_ld_wrapped' in static and orig_outcome == ('exc', 'NameError'):
+        return 'augassign_value_reads_not_ld_wrapped'
     for k in ('except_handler_binds_name', 'try_else_block_starts_with_if', 'chained_comparison_effectful_middle_operand'):
         if k in static:
             return k
@@ -209,7 +217,15 @@ def worker(spec):
             for i, p in enumerate(allp):
                 if i % spec['nshards'] == spec['shard']:
                     progs.append(p)
+        if spec.get('jump_cap', 0) > 0:
+            allj = progen.jump_context_programs(spec['jump_depth'], cap=spec['jump_cap'] * spec['nshards'],
+                                                rng=random.Random(spec['seed'] + 17), info=info)
+            for i, p in enumerate(allj):
+                if i % spec['nshards'] == spec['shard']:
+                    progs.append(p)
         progs += list(progen.random_programs(rng, spec['random_n'], size=spec.get('size', 12)))
+        # interleave the families so that a time budget cuts all of them evenly
+        rng.shuffle(progs)
     res = {'programs': 0, 'cases': 0, 'nontrivial': 0, 'failures': [], 'features': {}, 'outcomes': {}, 'configs': {},
            'space': info, 'convert_errors': 0, 'samples': [], 'hashseed': os.environ.get('PYTHONHASHSEED')}
     t0 = time.time()
@@ -270,7 +286,7 @@ def worker(spec):
                                 what += ': module global differs'
                             else:
                                 what += ': mutable argument state differs'
-                            res['failures'].append({'what': what, 'cls': classify(p, mod, a, d, static),
+                            res['failures'].append({'what': what, 'cls': classify(p, mod, a, d, static, r0[0]),
                                                     'case': dict(p.to_json(), config=cname, variant=vname, args=list(a), decisions=list(d),
                                                                  original=repr(r0)[:600], converted=repr(r1)[:600])})
                 if len(res['samples']) < 2 and pi % 7 == 3:
